@@ -383,6 +383,16 @@ class Check:
         """property-specific additional steps; may call self.violation(...)"""
         return
 
+    def corpus_streams(self):
+        """minimised past failures, always run first"""
+        d = os.path.join(ROOT, "corpus", self.prop)
+        out = []
+        for f in sorted(os.listdir(d)) if os.path.isdir(d) else []:
+            if f.endswith(".ops"):
+                ops = [l.strip() for l in open(os.path.join(d, f)) if l.strip() and not l.startswith("#")]
+                out.append(Stream("corpus:" + f, ops, history=True))
+        return out
+
     # --- machinery
     def violation(self, kind, key, detail, payload):
         self.violations.append((kind, key, detail, payload))
@@ -460,14 +470,14 @@ class Check:
         self.cov["streams"][st.name] = info
         if j is not None:
             i, desc = j
-            ops = self.shrink(st, i, lambda o, im, mo: self.judge_history(o, im) is not None)
+            ops = self.shrink(st, i, lambda o, im, mo, rc: self.judge_history(o, im) is not None)
             self.violation("property", self.classify(st.ops[i], desc), desc,
                            {"stream": st.name, "ops": ops, "first_bad_op": st.ops[i], "impl_line": impl[i] if i < len(impl) else None})
         elif crashed:
-            i = len(impl)
-            op = st.ops[i] if i < len(st.ops) else "<end>"
+            i = min(len(impl), len(st.ops) - 1)
+            op = st.ops[i] if len(impl) < len(st.ops) else "<end of stream: %s>" % st.ops[-1].split()[0]
             desc = "harness died (rc=%d) at op #%d `%s`: %s" % (rc, i, op[:120], sanitizer_summary(err))
-            ops = self.shrink(st, i, lambda o, im, mo: len(im) < len(o))
+            ops = self.shrink(st, i, lambda o, im, mo, rc: rc != 0)
             self.violation("crash", self.classify(op, desc), desc,
                            {"stream": st.name, "ops": ops, "stderr": err[-3000:]})
         elif d is not None:
@@ -475,7 +485,7 @@ class Check:
             desc = "model and implementation differ at op #%d `%s`: impl `%s` model `%s`" % (
                 d, op[:120], (impl[d] if d < len(impl) else "<missing>")[:200],
                 (model[d] if d < len(model) else "<missing>")[:200])
-            ops = self.shrink(st, d, lambda o, im, mo: mo is not None and first_diff(im, mo) is not None)
+            ops = self.shrink(st, d, lambda o, im, mo, rc: mo is not None and first_diff(im, mo) is not None)
             self.violation("corr", "corr:" + st.name, desc, {"stream": st.name, "ops": ops})
 
     def shrink(self, st, idx, pred):
@@ -490,7 +500,7 @@ class Check:
             mo = None
             if os.path.exists(driver_path()) and self.module:
                 mo, mrc, _ = run_model(self.module, text, timeout=60)
-            return pred(cand, im, mo)
+            return pred(cand, im, mo, rc)
         try:
             return ddmin(ops, fails, budget=120 if self.tier == "quick" else 400)
         except Exception:
